@@ -4,6 +4,7 @@ CONSTANTS
   MaxDepth = 1
   MaxStr = 4
   Emit = TRUE
+  MaxDeep = 0
   Part = "strings"
 INVARIANT Inv
 CHECK_DEADLOCK FALSE
